@@ -941,7 +941,7 @@ def r1316_constexpr(P, rep, rule='R13.16'):
     if missing:
         rep.undecided(rule, '%s:evaluators:node-kinds' % PU, 'node kinds %s vanished' % missing, where=where)
         return
-    gvar = lambda t: Obj('Obj', lazy=True, label='global', fields={'is_local': 0, 'ty': tys.make(t), 'name': 'g', 'is_function': int(t == 'func')})
+    gvar = lambda t: Obj('Obj', lazy=True, label='global', fields={'is_local': 0, 'is_tls': 0, 'ty': tys.make(t), 'name': 'g', 'is_function': int(t == 'func')})
     for ev in ints + labs:
         args = (lambda n: [n]) if ev in ints else (lambda n: [n, 0])
         for k in ICE_BINARY:
